@@ -6,7 +6,7 @@ ID = sys.argv[1]
 props = sys.argv[2:]
 out = f"/tmp/mut_out/{ID}"
 wt = f"/tmp/mut/{ID}"
-env = dict(os.environ, CARGO_NET_OFFLINE="true")
+env = dict(os.environ, CARGO_NET_OFFLINE="true", ATS_EVAL_NO_PROOF="1")
 def sh(cmd, cwd=None):
     return subprocess.run(cmd, shell=True, cwd=cwd, env=env, stdout=subprocess.PIPE, stderr=subprocess.STDOUT, text=True)
 meta = json.load(open(f"{out}/meta.json"))
@@ -34,7 +34,7 @@ if ok_a and ok_b and ok_c:
         r = sh(f"git apply {out}/patch.diff", "/repo")
         assert r.returncode == 0, r.stdout
         if not props:
-            props = [c["property_id"] for c in json.load(open("/verif/MANIFEST.json"))["checks"]]
+            props = ["C%02d" % i for i in range(1, 18)]
         for p in props:
             r = sh(f"./check {p}", "/verif")
             line = [l for l in r.stdout.splitlines() if l.startswith("VIOLATION") or l.startswith("OK ")]
